@@ -79,6 +79,41 @@ pub enum FixH {
     Abh,
 }
 
+/// Names that part company *inside* a multi-byte character: same lead octet (and same second / third octet),
+/// different tail. A common continuation computed on bytes would end in the middle of a character.
+#[derive(Debug, Command)]
+pub enum FixU<'a> {
+    /// Up
+    #[command(name = "向上")]
+    Up {
+        /// How far
+        n: Option<u8>,
+    },
+    #[command(name = "向下")]
+    Down,
+    #[command(name = "€a")]
+    Eur,
+    #[command(name = "₭b")]
+    Kip { what: &'a str },
+    #[command(name = "𐍈x")]
+    G1,
+    #[command(name = "𐍉y")]
+    G2,
+    #[command(name = "𐎈z")]
+    G3,
+    #[command(name = "ña")]
+    N1,
+    #[command(name = "òb")]
+    N2,
+    #[command(name = "かな")]
+    Ka,
+    #[command(name = "きの")]
+    Ki,
+    #[command(name = "アイ")]
+    A,
+}
+pub const FIXU_NAMES: [&str; 12] = ["向上", "向下", "€a", "₭b", "𐍈x", "𐍉y", "𐎈z", "ña", "òb", "かな", "きの", "アイ"];
+
 #[derive(Debug, CommandGroup)]
 pub enum FixG<'a> {
     A(FixA<'a>),
@@ -93,6 +128,7 @@ pub enum SetKind {
     Raw,
     FixA,
     FixG,
+    FixU,
 }
 
 impl SetKind {
@@ -101,6 +137,7 @@ impl SetKind {
             SetKind::Raw => "raw",
             SetKind::FixA => "fixa",
             SetKind::FixG => "fixg",
+            SetKind::FixU => "fixu",
         }
     }
     pub fn from_name(s: &str) -> Option<Self> {
@@ -108,6 +145,7 @@ impl SetKind {
             "raw" => Some(SetKind::Raw),
             "fixa" => Some(SetKind::FixA),
             "fixg" => Some(SetKind::FixG),
+            "fixu" => Some(SetKind::FixU),
             _ => None,
         }
     }
@@ -117,6 +155,7 @@ impl SetKind {
             SetKind::Raw => vec![],
             SetKind::FixA => FIXA_NAMES.iter().map(|s| s.to_string()).collect(),
             SetKind::FixG => FIXA_NAMES.iter().chain(FIXB_NAMES.iter()).map(|s| s.to_string()).collect(),
+            SetKind::FixU => FIXU_NAMES.iter().map(|s| s.to_string()).collect(),
         }
     }
     pub fn parse_fn(&self) -> Option<ParseFn> {
@@ -124,6 +163,7 @@ impl SetKind {
             SetKind::Raw => None,
             SetKind::FixA => Some(parse_fixa),
             SetKind::FixG => Some(parse_fixg),
+            SetKind::FixU => Some(parse_fixu),
         }
     }
 }
@@ -135,6 +175,10 @@ fn parse_fixg<'a>(raw: RawCommand<'a>) -> Result<String, embedded_cli::service::
     FixG::parse(raw).map(|c| format!("{:?}", c))
 }
 
+fn parse_fixu<'a>(raw: RawCommand<'a>) -> Result<String, embedded_cli::service::ParseError<'a>> {
+    FixU::parse(raw).map(|c| format!("{:?}", c))
+}
+
 /// Dispatch a generic function over the command-set type.
 #[macro_export]
 macro_rules! with_set {
@@ -143,6 +187,7 @@ macro_rules! with_set {
             $crate::sets::SetKind::Raw => $f::<embedded_cli::command::RawCommand<'static>>($($args),*),
             $crate::sets::SetKind::FixA => $f::<$crate::sets::FixA<'static>>($($args),*),
             $crate::sets::SetKind::FixG => $f::<$crate::sets::FixG<'static>>($($args),*),
+            $crate::sets::SetKind::FixU => $f::<$crate::sets::FixU<'static>>($($args),*),
         }
     };
 }
